@@ -53,7 +53,10 @@ def unbShape : List Nat → List Int → List Nat
   | n :: ns, s :: ss => (if s == 0 then 1 else n) :: unbShape ns ss
   | _, _ => []
 
-def unbroadcast (a : SArr α) : SArr α := { a with shape := unbShape a.shape a.strides }
+/-- As repaired (F14c) an empty array is returned unchanged: giving its broadcast axes length 1
+would make a non-empty array over memory the empty view does not cover. -/
+def unbroadcast (a : SArr α) : SArr α :=
+  if a.shape.any (· == 0) then a else { a with shape := unbShape a.shape a.strides }
 
 /-- Admissibility test of `np.broadcast_to(a, target)` for equal ndim. -/
 def bcOk : List Nat → List Nat → Bool
